@@ -1,16 +1,17 @@
 """C08 - descriptive statistics equal their textbook definitions (DESIGN 4/C08)."""
 LEVEL = "model_checking"
-RULE = ("P1: for every integer data vector of length 1..L over -M..M (quick L=4, thorough L=6; M=2) with three companion vectors, "
-        "TLC checks in exact rationals that Welford's recurrence (one update per datum), the two-pass, shifted one-pass and "
-        "online covariance algorithms and the first-occurrence folds as coded equal the definitions, and that the definitions "
-        "obey the shift / scale / bilinearity laws; every increasing edge vector over 0..E for bin centres; "
-        "P2: every vector is replayed at offsets 0, 2^10, 2^20, 1e8 and -1e8 (the expected variance/covariance are those of the "
-        "un-shifted integers, so the implementation really sees mean/sd up to 1e8) through the free functions and the "
-        "Vector/Matrix methods: mean (both algorithms), var, std, sample var/std, covariance in all four algorithms, scale laws, "
-        "min/max/argmin/argmax (constant data, ties at every position, signed zeros), bin centres for uniform and non-uniform "
-        "integer and dyadic edges; tolerance 2^-40 (spread^2 + spread |offset|): the textbook one-pass formula is off by ~1e-4 at "
-        "offset 2^20 and is rejected; P3: random integer vectors of length 2..200 validated by TLC (Trace_Stats). "
-        "Case class = (function, data shape n=1/constant/ties/generic, offset class).")
+RULE = ("P1: for every integer data vector of length 1..L over -M..M (quick L=4, thorough L=6; M=2) with three "
+        "companion vectors, TLC checks in exact rationals that Welford's recurrence (one update per datum), the two-"
+        "pass, shifted one-pass and online covariance algorithms and the first-occurrence folds as coded equal the "
+        "definitions, and that the definitions obey the shift / scale / bilinearity laws; every increasing edge vector "
+        "over 0..E for bin centres; P2: every vector is replayed at offsets 0, 2^10, 2^20, 1e8 and -1e8 (the expected "
+        "variance/covariance are those of the un-shifted integers, so the implementation really sees mean/sd up to 1e8)"
+        " through the free functions and the Vector/Matrix methods: mean (both algorithms), var, std, sample var/std, "
+        "covariance in all four algorithms, scale laws, min/max/argmin/argmax (constant data, ties at every position, "
+        "signed zeros), bin centres for uniform and non-uniform integer and dyadic edges; tolerance 2^-40 (spread^2 + "
+        "spread |offset|): the textbook one-pass formula is off by ~1e-4 at offset 2^20 and is rejected; P3 (incl. six "
+        "vectors of length 513..1400): random integer vectors of length 2..200 validated by TLC (Trace_Stats). Case "
+        "class = (function, data shape n=1/constant/ties/generic, offset class).")
 ASSUMPTIONS = ["integer data plus exact offsets (exact rational oracle); lengths beyond a few hundred and gaussian data are not reached",
                "tolerance is that of a numerically stable algorithm, stated in the rule"]
 EXHAUSTIVE = True
